@@ -1,6 +1,6 @@
 SPECIFICATION Spec
 CONSTANTS
   Keys <- MCKeys
-INVARIANTS Refines PredictedPositionsExact FreedOnce
+INVARIANTS Refines PredictedPositionsExact FreedOnce SnapshotEqualsRescan
 VIEW View
 CHECK_DEADLOCK FALSE
